@@ -220,3 +220,29 @@ Proof.
     rewrite Nat.mul_comm, <- list_sum_scale. apply list_sum_ext. intros c Hc.
     rewrite Nat.sub_0_r. lia.
 Qed.
+
+(* without swaps: sum_q y_q * phase_q  =  X * Yrev  (mod 2^n),  Yrev = sum_q y_q 2^q  (y read backwards) *)
+Lemma dft_phase_gen_rev n x (yb : nat -> nat) : forall l,
+  (forall q, In q l -> q < n) ->
+  exists K, list_sum (map (fun q => yb q * (qphase n x 0 * 2 ^ q)) l)
+            = 2 ^ n * K + list_sum (map (fun q => yb q * qphase n x q) l).
+Proof.
+  induction l as [|q l IH]; intros H.
+  - exists 0. simpl. lia.
+  - destruct IH as [K1 E1]; [intros; apply H; now right|].
+    destruct (qphase_shift n x q) as [K2 E2]; [specialize (H q (or_introl eq_refl)); lia|].
+    exists (K1 + yb q * K2). cbn [map]. rewrite !list_sum_cons. rewrite E1, E2. lia.
+Qed.
+
+Definition rev_value (n : nat) (y : bits) : nat :=
+  list_sum (map (fun q => b2n (nth q y false) * 2 ^ q) (seq 0 n)).
+
+Theorem dft_phase_congruence_rev n x y :
+  exists K, qphase n x 0 * rev_value n y
+            = 2 ^ n * K + list_sum (map (fun q => b2n (nth q y false) * qphase n x q) (seq 0 n)).
+Proof.
+  destruct (dft_phase_gen_rev n x (fun q => b2n (nth q y false)) (seq 0 n)) as [K E].
+  - intros q Hq. apply in_seq in Hq. lia.
+  - exists K. rewrite <- E. unfold rev_value.
+    rewrite Nat.mul_comm, <- list_sum_scale. apply list_sum_ext. intros c Hc. lia.
+Qed.
